@@ -219,7 +219,7 @@ def programs(tier, seed):
         out += [(theme, p) for p in d2[:60 if tier == "quick" else 600]]
     for sr in SEMIRINGS[:4]:
         out += [("%s/%s" % sr[:2], p) for p in gen_sumproducts(rng, 20 if tier == "quick" else 150, sr[0], sr[1], sr[2], 4)]
-    out += [("real", p) for p in gen.einsum_progs()]
+    out += [("real", p) for p in gen.einsum_progs()] + [("real", p) for p in gen.constant_progs()[::3]]
     return out
 
 
